@@ -126,6 +126,13 @@ class Ctx:
         else:
             self.known[t.get_id()] = True
 
+    def require(self, t):
+        """Precondition: assume it; a path on which it cannot hold is outside the contract and ends here."""
+        self.assume(t)
+        if self._check() == z3.unsat:
+            self.ended_by_require = True  # obligations stated before this point were proved under a satisfiable prefix
+            raise PathEnd()
+
     def _check(self, *assumptions):
         t0 = time.time()
         r = self.solver.check(*assumptions)
@@ -266,7 +273,7 @@ def explore(harness, world, unit_name, max_paths=4000, keep_smt=False, wall_budg
         except PathEnd:
             pass
         # vacuity guard: the path condition under which this path's obligations were discharged must be satisfiable
-        if ctx.results and ctx.pc:
+        if ctx.results and ctx.pc and not getattr(ctx, "ended_by_require", False):
             r = ctx._check()
             if r == z3.unsat:
                 for ob in ctx.results:
